@@ -187,12 +187,27 @@ class polygon_bbox:
         return dict(self=polygon(B, 'r'), i0=B.int('w.left'), i1=B.int('w.right'), i2=B.int('w.bottom'), i3=B.int('w.top'))
     pre = lambda self: polygon_ok(self)
     call = lambda self: self.bounding_box
-    forall = {'k': 'int'}
+    forall = {'k': 'int', 'x': 'real', 'y': 'real'}
     post = {
         'encloses_vertices': lambda self, result, k: (
             (not (0 <= k and k < len(self.vertices.x))) or covers(result, self.vertices.x[k], self.vertices.y[k])),
         'is_box': lambda result: is_bbox(result),
+        'encloses_members': lambda self, result, x, y: _members_in_box(self, result, x, y),
     }
+
+
+def _members_in_box(self, bb, x, y):
+    """every member (even-odd rule) lies in the box: a point outside the box is outside the extent of the vertices, and such a
+    point has an even crossing number - the lemma proved by induction over the edges in contracts/k_kernels.py, used here through
+    its own precondition and conclusion (this replaces the convex-hull argument that session 1 had to trust)"""
+    from contracts.k_kernels import lemma_point_outside_the_vertex_box_has_even_crossing_number as L, SIDES
+    from spec.polygon import crossings_odd
+    from vprim import fact, use_lemma
+    vx, vy = self.vertices.x, self.vertices.y
+    use_lemma('lemma_point_outside_the_vertex_box_has_even_crossing_number')
+    for side in SIDES:
+        fact(implies(L.pre(vx=vx, vy=vy, x=x, y=y, side=side), not crossings_odd(vx, vy, x, y)))
+    return implies(crossings_odd(vx, vy, x, y), covers(bb, x, y))
 
 
 @contract(POLYGON + '.bounding_box', props=['C04'])
@@ -377,3 +392,15 @@ class ellipse_bbox_follows_assignment:
     call = lambda self, c2, w2, h2, a2: _reassign_whA(self, c2, w2, h2, a2)
     modifies = ('r',)
     post = {'box_is_function_of_current_parameters': lambda result: same_box(result[1], result[2])}
+
+
+@contract(POLYGON + '.bounding_box', props=['C04'])
+class polygon_bbox_minimal_for_any_number_of_vertices:
+    """the extreme coordinates are attained by vertices (numpy's min/max: a witness index) and each lies in the first / last column or
+    row of the box: no border row or column could be dropped, however many vertices the polygon has"""
+    def setup(B):
+        return dict(self=polygon(B, 'r'))
+    pre = lambda self: polygon_ok(self)
+    call = lambda self: self.bounding_box
+    post = {'minimal': lambda self, result: reaches(
+        result, (self.vertices.x.min(), 0), (self.vertices.x.max(), 0), (0, self.vertices.y.min()), (0, self.vertices.y.max()))}
